@@ -7,7 +7,7 @@ import struct
 import unicodedata
 from fractions import Fraction
 
-from ..cfg import CFG
+from ..cfg import CFG, fact_holds_at
 from ..consteval import ConstEval, EnumMember, FuncEval, NotConst, Sym
 from ..core import AnalysisError, own_nodes, short, unparse
 from ..rules import nul, defs, exa, lint, shape
@@ -378,6 +378,71 @@ def check_span_styles(ctx):
   ctx.check(not wrong, "FIN-span", f"{f.qualname}|underline and italics are applied independently", ctx.where(f.module, f.node), f"{n} combinations", "; ".join(wrong[:4]))
 
 
+def check_iso6937_dispatch(ctx):
+  """FIN-iso6937: the decoder consumes two bytes exactly for the ISO 6937 non-spacing diacritical
+  marks C1h-CFh and copies 20h-7Eh unchanged; every other byte goes through the one-byte table."""
+  from ..rules.isdrules import substitute
+  from ..consteval import NotConst
+  ix = ctx.ix
+  f = ix.func("ttconv.stl.iso6937:decode")
+  ctx.unit(f.module)
+  ce = ConstEval(ix, symbolic_ok=False)
+  loops = [n for n in own_nodes(f.node) if isinstance(n, ast.While)]
+  if len(loops) != 1 or not isinstance(loops[0].body[0], ast.If):
+    raise AnalysisError("iso6937.decode: the byte loop was not found")
+  idx = None
+  for n in ast.walk(loops[0].test):
+    if isinstance(n, ast.Name):
+      idx = idx or n.id
+  buf = f.params[0]
+  chain = []
+  cur = loops[0].body[0]
+  while isinstance(cur, ast.If):
+    chain.append(cur)
+    cur = cur.orelse[0] if len(cur.orelse) == 1 and isinstance(cur.orelse[0], ast.If) else None
+
+  def step_of(body):
+    for st in body:
+      if isinstance(st, ast.AugAssign) and unparse(st.target) == idx and isinstance(st.value, ast.Constant):
+        return st.value.value
+    return None
+  wrong = []
+  for b in range(256):
+    taken = None
+    for c in chain:
+      t = substitute(c.test, {f"int({buf}[{idx}])": "__b", f"{buf}[{idx}]": "__b"})
+      try:
+        if ce.ev(f.module, t, None, {"__b": b}):
+          taken = step_of(c.body)
+          break
+      except NotConst as e:
+        raise AnalysisError(f"iso6937.decode: test `{short(c.test, 50)}` leaves the evaluable subset ({e})")
+    else:
+      taken = step_of(chain[-1].orelse) if chain else None
+    want = 2 if 0xC1 <= b <= 0xCF else 1
+    if taken != want:
+      wrong.append(f"{b:02X}h consumes {taken} byte(s), expected {want}")
+  ctx.check(not wrong, "FIN-iso6937", f"{f.qualname}|two bytes exactly for C1h-CFh", ctx.where(f.module, loops[0]), "256 byte values",
+            "ISO 6937 decoding: " + "; ".join(wrong[:4]) + " - composed characters (e.g. caron + letter) are decoded wrongly")
+
+
+def check_newline_reset(ctx):
+  """TAB-reset: at a new row, the styles are reset only in teletext subtitles (EBU Tech 3264: in open subtitles colour and emphasis persist across rows)."""
+  ix = ctx.ix
+  f = ix.func("ttconv.stl.tf:to_model")
+  ctx.unit(f.module)
+  tparam = f.params[1]
+  cfg = CFG(f.node)
+  resets = [c for c in own_nodes(f.node) if isinstance(c, ast.Call) and isinstance(c.func, ast.Attribute) and c.func.attr == "reset_styles"]
+  if not resets:
+    raise AnalysisError("tf.to_model: no reset_styles call found")
+  for c in resets:
+    nid = cfg.stmt_node_containing(c)
+    ok = fact_holds_at(cfg, nid, lambda test, pol: pol and any(isinstance(x, ast.Name) and x.id == tparam for x in ast.walk(test)) and not isinstance(test, ast.UnaryOp))
+    ctx.check(ok, "TAB-reset", f"{f.qualname}|{short(c, 40)} only in teletext", ctx.where(f.module, c), f"under `if {tparam}`",
+              f"`{short(c, 50)}` runs at every new row whether or not the subtitle is teletext: open subtitles lose colour, italics and underline after a line break")
+
+
 def check_tcp_fields(ctx):
   """TAB-tcp: the GSI Time Code: Start-of-Programme field is HHMMSSFF - four two-character fields, in that order."""
   ix = ctx.ix
@@ -424,4 +489,6 @@ def run(ctx):
   ncp = nul.check_sources(ctx, [m_ for m_ in ctx.ix.cls("ttconv.stl.datafile:DataFile").methods.values() if m_.name != "__init__"], nul.NullSources(fields={"cur_p_element"}), rule="NUL-field")
   ctx.floor("NUL-field", "dereferences of DataFile.cur_p_element", ncp, 3)
   check_tcp_fields(ctx)
+  check_iso6937_dispatch(ctx)
+  check_newline_reset(ctx)
   common.check_history_independence(ctx, [n for n in ctx.ix.modules if n.startswith("ttconv.stl")] + ["ttconv.time_code"])
